@@ -70,6 +70,8 @@ class Interp:
         self.by_thread = {}
         self.user_threads = []
         self.held = {}
+        self.inflight_all = []
+        run.inflight_all = self.inflight_all
         if spec.get("hold_refs", True):
             run.keepalive = self      # like module-level globals of a script
         del REDUCER_LOG[:]
@@ -135,18 +137,22 @@ class Interp:
         pinfo = self._info_of(prev) if prev is not None else None
         old_pids = sorted(prev._processes) if prev is not None else []
         req = kw.get("max_workers")
-        if pinfo is not None and req is not None:
-            pinfo["inflight"].append(req)
+        if req is not None:
+            self.inflight_all.append(req)
         if prev is not None:
             prev_state = dict(ident=id(prev), id=prev.executor_id, broken=prev._flags.broken is not None,
                               shutdown=prev._flags.shutdown, max_workers=prev._max_workers)
         try:
             ex = get_reusable_executor(**kw)
         finally:
-            if pinfo is not None and req is not None:
-                pinfo["inflight"].remove(req)
-                cur_mw = prev._max_workers
-                pinfo["base"] = cur_mw if not pinfo["inflight"] else max(pinfo["base"], cur_mw)
+            if req is not None:
+                self.inflight_all.remove(req)
+            for info_ in self.obs.executors.values():
+                if info_["kind"] == "reusable":
+                    e_ = info_["wref"]()
+                    if e_ is not None:
+                        cur_mw = e_._max_workers
+                        info_["base"] = cur_mw if not self.inflight_all else max(info_["base"], cur_mw)
         k = rt.RT.kernel
         known = None
         for info in self.obs.executors.values():
